@@ -7,13 +7,15 @@ import DustVerif.Proofs.WrtSteps
     All theorems quantify over every state / event list of Model/WriterEnt.lean. -/
 namespace DustVerif.Wrt
 
-/-- no stored change has expired at time `now` (strict, as in remove_stale_writer_samples) -/
+/-- no stored SAMPLE (ALIVE change) has expired at time `now` (strict, as in remove_stale_writer_samples). The
+    key-only NOT_ALIVE change of unregister_instance carries no sample; it is purged like the others, but
+    unregister_instance_w_timestamp does not test its stamp against the lifespan when it is sent. -/
 def FreshAt (s : St) (now : Int) : Prop :=
-  ∀ l, s.qos.lifespan = some l → ∀ c ∈ s.changes, c.ts + l > now
+  ∀ l, s.qos.lifespan = some l → ∀ c ∈ s.changes, c.alive = true → c.ts + l > now
 
 /-- every DATA submessage of the datagrams carries a change that has not expired at time `now` -/
 def FreshData (q : Qos) (now : Int) (ds : List Dgram) : Prop :=
-  ∀ l, q.lifespan = some l → ∀ c ∈ dataOf ds, c.ts + l > now
+  ∀ l, q.lifespan = some l → ∀ c ∈ dataOf ds, c.alive = true → c.ts + l > now
 
 theorem freshData_nil (q : Qos) (now : Int) : FreshData q now [] := by
   intro l _ c hc; simp [dataOf] at hc
@@ -40,7 +42,7 @@ theorem removeStale_fresh (s : St) (now : Int) : FreshAt (removeStale s now) now
     have : l = l' := by simpa [h] using hl.symm
     subst this
     simp only [List.mem_filter, freshAt, decide_eq_true_eq] at hc
-    exact hc.2
+    exact fun _ => hc.2
 
 theorem evict_fresh (s : St) (k sn : Nat) (now : Int) (h : FreshAt s now) : FreshAt (evict s k sn) now := by
   intro l hl c hc
@@ -65,6 +67,7 @@ theorem entWrite_fresh (s : St) (k : Nat) (v : Int) (ts now : Int) (h : FreshAt 
         · exact h l hl c hm
         · subst hm
           simp only [expiredAtWrite, hl, decide_eq_false_iff_not] at hne
+          intro _
           simp only; omega
       refine ⟨hfresh, ?_⟩
       intro l hl c hm
@@ -154,6 +157,24 @@ theorem onAcknack_fresh (s : St) (rid base : Nat) (set : List Nat) (count : Nat)
   refine ⟨h2.1, freshData_append ?_ h2.2⟩
   exact freshData_of_subset h (ackProxies_data s.changes now rid base set count s.proxies)
 
+/-- unregister_instance on a fresh history: the only new change is the key-only NOT_ALIVE one -/
+theorem unregisterW_fresh (s : St) (k : Nat) (ts now : Int) (h : FreshAt s now) :
+    FreshAt (unregisterW s k ts now).1 now ∧ FreshData s.qos now (unregisterW s k ts now).2.2 := by
+  unfold unregisterW
+  split
+  · have hfresh : FreshAt (addChange { s with insts := clearReg k s.insts, lastSn := s.lastSn + 1 }
+        { sn := s.lastSn + 1, key := k, val := 0, ts := ts, alive := false } now).1 now := by
+      intro l hl c hm ha
+      simp only [addChange, List.mem_append, List.mem_singleton] at hl hm
+      rcases hm with hm | hm
+      · exact h l hl c hm ha
+      · subst hm; cases ha
+    refine ⟨hfresh, ?_⟩
+    intro l hl c hm ha
+    have hin := writeMessageAll_data _ now _ c (by simpa [addChange] using hm)
+    exact hfresh l (by simpa [addChange] using hl) c (by simpa [addChange] using hin) ha
+  · exact ⟨h, freshData_nil _ _⟩
+
 /-- handling a mail on a history in which nothing has expired sends nothing expired (used for both workers) -/
 theorem mail_sends_fresh (s : St) (t : Int) (h : FreshAt s t) :
     (∀ k v ts, FreshData s.qos t (methodWrite s k v ts t).2.dgrams ∧ FreshAt (methodWrite s k v ts t).1 t) ∧
@@ -185,6 +206,12 @@ theorem C29_step_sends_fresh (s : St) (e : Ev) (t : Int) (ht : e.now = some t) :
     subst this
     exact C29_tick_sends_fresh s now
   | matchReader rid rel tl => simp [Ev.now] at ht
+  | unregister k ts now =>
+    have : now = t := by simpa [Ev.now] using ht
+    subst this
+    have hu := unregisterW_fresh (removeStale s now) k ts now (removeStale_fresh s now)
+    rw [hq] at hu
+    exact ⟨hu.2, hu.1⟩
 
 /-- every event of the run sends only changes that have not expired at the time of that event -/
 def SendsFresh : St → List Ev → Prop
@@ -229,6 +256,7 @@ def Punctual : St → List Ev → Prop
     (match e with
      | .write _ _ _ now => FreshAt s now
      | .acknack _ _ _ _ now => FreshAt s now
+     | .unregister _ _ now => FreshAt s now
      | _ => True) ∧ Punctual (stepAsIs s e).1 es
 
 /-- what held before the repair: no expired change is sent along any PUNCTUAL event list -/
@@ -253,6 +281,10 @@ theorem C29_no_expired_send_asis_partial (s : St) (evs : List Ev) (h : Punctual 
       subst this
       exact (C29_tick_sends_fresh s now).1
     | matchReader rid rel tl => simp [Ev.now] at ht
+    | unregister k ts now =>
+      have : now = t := by simpa [Ev.now] using ht
+      subst this
+      exact (unregisterW_fresh s k ts now h1).2
 
 /-- D34, regression witness (pinned commit): lifespan 1 s, a reliable reader, one sample written at t = 0 (its DATA
     is lost on the wire, which the writer cannot see); the reader's ACKNACK(base 1, set {1}) is handled at
@@ -269,15 +301,15 @@ theorem C29_no_expired_send_asis_counterexample :
       c.sn = 1 ∧ c.ts + 1000000000 ≤ 1050000000) ∧
     (step (run (St.init d34Q) (d34Evs.take 3)) (.acknack 0 1 [1] 1 1050000000)).2.dgrams
       = [{ reader := 0, subs := [.gap 1 2] }] := by
-  have hw : (⟨1, 1, 10, 0⟩ : Change) ∈
+  have hw : (⟨1, 1, 10, 0, true⟩ : Change) ∈
       dataOf (stepAsIs (runAsIs (St.init d34Q) (d34Evs.take 3)) (.acknack 0 1 [1] 1 1050000000)).2.dgrams := by decide
-  have hc : (⟨1, 1, 10, 0⟩ : Change) ∈ (runAsIs (St.init d34Q) (d34Evs.take 3)).changes := by decide
+  have hc : (⟨1, 1, 10, 0, true⟩ : Change) ∈ (runAsIs (St.init d34Q) (d34Evs.take 3)).changes := by decide
   refine ⟨?_, ?_, ⟨_, hw, rfl, by decide⟩, by decide⟩
   · intro h
-    have h4 := h.2.2.2.1 1050000000 rfl 1000000000 rfl _ hw
+    have h4 := h.2.2.2.1 1050000000 rfl 1000000000 rfl _ hw rfl
     simp at h4
   · intro h
-    have h4 := h.2.2.2.1 1000000000 rfl _ hc
+    have h4 := h.2.2.2.1 1000000000 rfl _ hc rfl
     simp at h4
 
 /-- non-vacuity: a late joiner after the expiry of the only stored sample gets a GAP and a heartbeat, no DATA; a
@@ -285,6 +317,21 @@ theorem C29_no_expired_send_asis_counterexample :
 example :
     dataOf (step (step (run (St.init d34Q) [.write 1 10 0 0, .tick 0]) (.matchReader 0 true true)).1 (.tick 1200000000)).2.dgrams = [] ∧
     dataOf (step (step (run (St.init d34Q) [.write 1 10 0 0, .tick 0]) (.matchReader 0 true true)).1 (.tick 900000000)).2.dgrams
-      = [⟨1, 1, 10, 0⟩] := by decide
+      = [⟨1, 1, 10, 0, true⟩] := by decide
+
+/-- C29 (all writers of the participant are purged): remove_stale_writer_samples of the participant leaves EVERY
+    user writer with a fresh history, wherever it stands in the publisher / writer lists and whatever the lifespan
+    (finite or infinite) of the writers before it -/
+theorem C29_purge_reaches_every_writer (ws : List St) (now : Int) :
+    ∀ w ∈ purgeWriters ws now, FreshAt w now := by
+  intro w hw
+  simp only [purgeWriters, List.mem_map] at hw
+  obtain ⟨w0, _, rfl⟩ := hw
+  exact removeStale_fresh w0 now
+
+/-- non-vacuity: an idle writer with infinite lifespan in front does not shield the second writer's expired sample -/
+example :
+    ((purgeWriters [St.init { d34Q with lifespan := none }, run (St.init d34Q) [.write 1 10 0 0, .tick 0]] 1000000000).map
+      (fun w => w.changes.length)) = [0, 0] := by decide
 
 end DustVerif.Wrt
